@@ -150,8 +150,29 @@ def leanchecker(modules):
 
 
 def list_theorems(prop_module, namespace):
+    """fully qualified names of the top-level `theorem`s of a module's source file. Follows `namespace X` / `section X` /
+    `end X` nesting and `_root_.` prefixes; `namespace` is only the fallback for a file that opens no namespace."""
     src = strip_comments(open(module_files(prop_module)).read())
-    return [f"{namespace}.{n}" for n in re.findall(r"^theorem\s+([^\s({\[:]+)", src, flags=re.M)]
+    stack = []   # (kind, name)
+    out = []
+    for line in src.split("\n"):
+        m = re.match(r"^(namespace|section)\b\s*(\S*)", line)
+        if m:
+            stack.append((m.group(1), m.group(2)))
+            continue
+        m = re.match(r"^end\b\s*(\S*)", line)
+        if m and stack:
+            stack.pop()
+            continue
+        m = re.match(r"^(?:@\[[^\]]*\]\s*)?(?:private\s+|protected\s+)?theorem\s+([^\s({\[:]+)", line)
+        if m:
+            n = m.group(1)
+            if n.startswith("_root_."):
+                out.append(n[len("_root_."):])
+            else:
+                ns = ".".join(name for kind, name in stack if kind == "namespace" and name)
+                out.append(f"{ns or namespace}.{n}")
+    return out
 
 
 def _run_shard(args):
